@@ -91,8 +91,8 @@ def rand_wtree(rng, depth, shape=None, base=0):
             else:
                 ch = rand_wtree(rng, depth - 1, shape=cshape)
             children.append(ch)
-            if rng.random() < 0.05:
-                # block definition running backwards (listed defect block-reversed-definition: every chunk reaching it is refused)
+            if rng.random() < 0.12:
+                # block definition running backwards (served since the repair F1 of _find_slice_overlap)
                 arrangement.append([[b - 1, (a - 1 if a > 0 else None), -1] for a, b in c])
             else:
                 arrangement.append([[a, b, 1] for a, b in c])
@@ -321,6 +321,42 @@ def check_case(spec, chunks, modes, tmpdir, fails, stats, drv_jobs):
         b.cleanup()
     except Exception:
         pass
+    # addressing is honoured also when the chunk has the full shape: (a) the whole image handed over through a reversed subscript is
+    # stored reversed (same stores as the plain whole-image write of the same pixels), (b) a full-size chunk at a non-zero start is refused
+    axes = [k for k, n in enumerate(shape) if n > 1]
+    if axes and not segmodel._fmts(spec):
+        ax = axes[sum(shape) % len(axes)]
+        sl = tuple(slice(None, None, -1) if k == ax else slice(0, n, 1) for k, n in enumerate(shape))
+        b = None
+        try:
+            b = segtree.Builder('w', tmpdir)
+            seg, _ = b.build(spec)
+            stats['full_shape_addressing'] = stats.get('full_shape_addressing', 0) + 1
+            try:
+                seg.write(numpy.ascontiguousarray(data[sl]), subscript=sl)
+                got = leaf_stores(b)
+                if any(not numpy.array_equal(x, y) for x, y in zip(whole, got)):
+                    fails.append(dict(case, msg=f'the whole image written through the reversed subscript (axis {ax}, step -1) is not stored where a plain whole-image write stores it: the subscript of a full-shape chunk is ignored'))
+            except Exception as e:
+                fails.append(dict(case, msg=f'whole image through a reversed subscript (axis {ax}) refused: {type(e).__name__}: {e}', exc=str(e)))
+            seg.close()
+            b.cleanup()
+            b = segtree.Builder('w', tmpdir)
+            seg, _ = b.build(spec)
+            before = leaf_stores(b)
+            try:
+                seg.write(data, start_indices=tuple(1 if k == ax else 0 for k in range(len(shape))))
+                fails.append(dict(case, msg=f'a full-size chunk at start index 1 along axis {ax} was accepted (it cannot fit)'))
+            except Exception:
+                after = leaf_stores(b)
+                if any(not numpy.array_equal(x, y) for x, y in zip(before, after)):
+                    fails.append(dict(case, msg='a refused full-size chunk was partly stored'))
+            seg.close()
+        except Exception:
+            pass
+        finally:
+            if b is not None:
+                b.cleanup()
 
 
 def classify(f):
